@@ -604,7 +604,10 @@ func (s *Sim) Step(idle time.Duration) StepResult {
 				break
 			}
 		}
-		s.gen++
+		if !w.spin {
+			// only real progress makes lock waiters worth re-trying
+			s.gen++
+		}
 		s.mu.Unlock()
 		s.step++
 		if w.task != nil {
